@@ -68,8 +68,8 @@ def install_hooks():
         except OrphanedChildException:
             _log("BodyEnd", e=eid, i=executable.index + 1, out="orphan")
             raise
-        except TimedSuspendExecution:
-            _log("BodyEnd", e=eid, i=executable.index + 1, out="tsusp")
+        except TimedSuspendExecution as ts:
+            _log("BodyEnd", e=eid, i=executable.index + 1, out="tsusp", until=round(float(ts.scheduled_timestamp) - ds.EPOCH0, 3))
             raise
         except SuspendExecution:
             _log("BodyEnd", e=eid, i=executable.index + 1, out="susp")
